@@ -209,10 +209,18 @@ pub fn run(case: &J) -> R<J> {
                 ents_wire,
             );
             out.insert("ws_add".into(), r);
+            // every entity taken out of a loaded store (it carries its transitive ancestors) round-trips on its own
+            let members = |x: &Entities| -> J {
+                let mut v: Vec<J> = x.iter().map(|e| json!({"uid": uid_to_wire(e.uid().as_ref()), "rt": rt_entity(e, &schema)})).collect();
+                v.sort_by_key(|m| m["uid"].to_string());
+                J::Array(v)
+            };
             if let Some(x) = ws {
+                out.insert("members_ws".into(), members(&x));
                 out.insert("rt_ws".into(), rt_store(&x, &schema));
             }
             if let Some(x) = ns {
+                out.insert("members_ns".into(), members(&x));
                 out.insert("rt_ns".into(), rt_store(&x, &schema));
             }
         }
